@@ -299,10 +299,11 @@ def run_witness(u, repo, bdir):
         try:
             p = subprocess.run(cmd, cwd=crate_dir, env=env, capture_output=True, text=True, timeout=w.get("timeout_s", 1800))
             out = p.stderr[-3000:] + "\n" + p.stdout
+            wsrc = p.stdout
             rc = p.returncode
         except subprocess.TimeoutExpired:
-            out, rc = "witness search timed out", 0
-        wit = [l[l.index("WITNESS "):] for l in out.split("\n") if "WITNESS " in l]
+            out, rc, wsrc = "witness search timed out", 0, ""
+        wit = [l[l.index("WITNESS "):] for l in wsrc.split("\n") if "WITNESS " in l]
         n_wit = len(wit)
         wit = wit[:6] + ([f"... and {n_wit - 6} more WITNESS lines"] if n_wit > 6 else [])
         return {"found": bool(wit), "witness_lines": wit, "output": out[-6000:], "cmd": " ".join(cmd), "rc": rc}
